@@ -22,7 +22,8 @@ import (
 
 var walkContainers = map[string]int{"moov": 0, "trak": 0, "mdia": 0, "minf": 0, "stbl": 0, "dinf": 0, "edts": 0, "mvex": 0, "moof": 0,
 	"traf": 0, "udta": 0, "sinf": 0, "schi": 0, "mfra": 0, "tref": 0, "stsd": 8, "dref": 8, "meta": 4,
-	"avc1": 78, "avc3": 78, "hvc1": 78, "hev1": 78, "encv": 78, "mp4a": 28, "enca": 28, "ac-3": 28, "ec-3": 28, "wvtt": 8, "vttc": 0}
+	"avc1": 78, "avc3": 78, "hvc1": 78, "hev1": 78, "encv": 78, "mp4a": 28, "enca": 28, "ac-3": 28, "ec-3": 28, "wvtt": 8, "vttc": 0,
+	"ludt": 0, "vp08": 78, "vp09": 78, "av01": 78}
 
 type rawBox struct {
 	typ   string
